@@ -76,6 +76,17 @@ func (p *Program) Verify(fn *ssa.Function, fc *FuncContract, mode Mode, primary,
 	c.declare("ctr0", "Int")
 	c.assume("(>= ctr0 0)")
 	st.ctr = "ctr0"
+	// thread-local contributions to monitor counters: 0 at entry unless the contract says otherwise (`token`)
+	if fc != nil {
+		for _, mr := range p.monitors {
+			if !sharesProp(fc.Props, mr.m.Props) {
+				continue
+			}
+			for _, n := range mr.m.Counters {
+				e.setToken(st, n, c.lit(types.Typ[types.Uint64], big.NewInt(int64(fc.Tokens[n]))))
+			}
+		}
+	}
 	e.entry = st.clone()
 	// parameters
 	e.params = map[string]Val{}
@@ -223,6 +234,13 @@ func (e *Encoder) envAt(st *State, blk *ssa.BasicBlock, phiOverride map[string]V
 	}
 	env.namedKnown = e.namedKnown
 	env.curCtr = st.ctr
+	env.tok = func(name string) string { return e.token(st, name) }
+	env.critMem = func(key, srt string) string {
+		if t, ok := st.mem["snap."+key]; ok {
+			return t
+		}
+		return st.get(e.c, key, srt)
+	}
 	// innermost enclosing loop that ranges over a map: visited(k)
 	var best *loopInfo
 	for _, li := range e.loops {
@@ -418,6 +436,10 @@ func (e *Encoder) block(b *ssa.BasicBlock) {
 		e.vals[phi] = v
 	}
 	// loop header?
+	e.curBlk = b
+	if len(e.lockSites) > 0 {
+		e.refreshHeld(b, 0)
+	}
 	if li := e.loops[b]; li != nil {
 		e.loopHeader(li, b, st, pc, phiEntry)
 	}
@@ -431,6 +453,9 @@ func (e *Encoder) block(b *ssa.BasicBlock) {
 		e.instr(in, st, pc)
 	}
 	e.exit[b] = st
+	if len(e.lockSites) > 0 {
+		e.refreshHeld(b, len(b.Instrs))
+	}
 	// back edges out of b: invariant preservation
 	for si, s := range b.Succs {
 		if e.back[[2]*ssa.BasicBlock{b, s}] {
@@ -461,6 +486,11 @@ func (e *Encoder) loopHeader(li *loopInfo, b *ssa.BasicBlock, st *State, pc stri
 		for _, rb := range e.rangeBounds(li) {
 			e.addObl(fmt.Sprintf("inv-init loop %d range", li.ord), rb.text, pc, rb.at(e.vals[rb.phi].S))
 		}
+	}
+	waits := e.loopWaits(li)
+	if waits {
+		// the monitor invariants of the held monitors are loop invariants of a loop that waits
+		e.monitorLoopObls(li, st, pc, "init")
 	}
 	// havoc
 	spec, handled := e.loopSpecificWrites(li.body)
@@ -566,6 +596,12 @@ func (e *Encoder) loopHeader(li *loopInfo, b *ssa.BasicBlock, st *State, pc stri
 	// range-loop index bounds (fixed rule, see rangeBounds); checked at entry and at every back edge
 	for _, rb := range e.rangeBounds(li) {
 		c.assume(implies(pc, rb.at(e.vals[rb.phi].S)))
+	}
+	// the head of a loop that waits on a monitored condition variable starts a critical section: it is
+	// reached right after Lock (plus the code before the loop) or right after a Wait
+	if waits {
+		e.monitorLoopAssume(st, pc)
+		e.snapshot(st)
 	}
 }
 
@@ -682,6 +718,9 @@ func (e *Encoder) loopBack(li *loopInfo, from *ssa.BasicBlock, si int, st *State
 		for _, rb := range e.rangeBounds(li) {
 			e.addObl(fmt.Sprintf("inv-keep loop %d range", li.ord), rb.text, epc, rb.at(e.val(rb.phi.Edges[pi]).S))
 		}
+	}
+	if e.loopWaits(li) {
+		e.monitorLoopObls(li, st, and(pc, edgeCond(e, from, h, si)), "keep")
 	}
 	if li.spec == nil {
 		return
@@ -920,8 +959,15 @@ func (e *Encoder) instr(in ssa.Instruction, st *State, pc string) {
 	case *ssa.Store:
 		a := e.val(in.Addr)
 		e.panicObl("nil", "store through nil pointer", pc, not(fmt.Sprintf("(= %s lnil)", a.S)))
+		var prev *Val
+		if e.fc != nil && len(e.fc.Sites) > 0 {
+			if _, isField := in.Addr.(*ssa.FieldAddr); isField && scalarElem(in.Val.Type()) {
+				p := e.load(st, a.S, in.Val.Type()) // `prev` in site assertions: the value being overwritten
+				prev = &p
+			}
+		}
 		e.store(st, a.S, in.Val.Type(), e.val(in.Val).S)
-		e.siteStore(in, st, pc)
+		e.siteStore(in, st, pc, prev)
 	case *ssa.MakeSlice:
 		l := c.convert(in.Len.Type(), intT, e.val(in.Len).S)
 		k := c.convert(in.Cap.Type(), intT, e.val(in.Cap).S)
@@ -962,6 +1008,13 @@ func (e *Encoder) instr(in ssa.Instruction, st *State, pc string) {
 			e.callCommon(d, d.Common(), nil, st, pc)
 		}
 	case *ssa.Go:
+		if len(e.held) > 0 {
+			// a goroutine started inside a critical section runs concurrently like any other thread: it cannot
+			// touch the state protected by the mutexes this thread holds (lockset audit), and the thread's own
+			// ghost contributions are its own. Everything else is havoc.
+			e.goUnderLock(st, pc)
+			break
+		}
 		e.havocAll(st, "go statement")
 	case *ssa.Send:
 		e.havocAll(st, "channel send")
